@@ -1,5 +1,6 @@
 import QcelVerif.Model.NucleusShipped
 import QcelVerif.Model.NucleusRe
+import QcelVerif.Gen.NucleusSrc
 import QcelVerif.Lib.Proto
 /-!
 Line-protocol driver for the C06 model (stateful: the `H`/`C` ops go through the LRU memo model).
@@ -9,7 +10,9 @@ Line-protocol driver for the C06 model (stateful: the `H`/`C` ops go through the
                                      re.match / re.fullmatch / re.search -> `none` | `ok <start> <end> <g1>,<g2>,…`
   D <hex decimal text>               float(text) through rd64
   G <hex symbol>                     _el2a2mass[symbol] min/max keys and values
-  R A|Z|E|mass|real|label|spec|nonphys|mtol     reconcile_nucleus (stateless)
+  R A|Z|E|mass|real|label|spec|nonphys|mtol     reconcile_nucleus (stateless), twice: `<hand model> # <source-derived>` — the second answer
+                                     is the evaluator of Model/NucleusAst.lean run on the statements regenerated from nucleus.py
+  F <hex label>                      parse_nucleus_label through the source-derived group reading (Gen/NucleusSrc.lean); mass as float
   H A|Z|E|mass|real|label|spec|nonphys|mtol     the same call through the 512-entry LRU memo table
   C                                  cache_clear()
 numbers: N | i<int> | f<rational> | b0 | b1 ; strings: N | s<hex> ; flags 0|1
@@ -103,6 +106,25 @@ def evalPattern (name mode hex : String) : String :=
     else "bad-op"
   | _, _ => "bad-op"
 
+def showValField : Ast.Val → String
+  | .none => "N"
+  | .num (.int i) => toString i
+  | .num (.float q) => "f" ++ showRat q
+  | .num (.bool b) => if b then "1" else "0"
+  | .str b => "s" ++ hex6 b
+  | .sym n => "s" ++ hex6 (unpack n)
+  | .dict _ => "?dict"
+
+/-- `parse_nucleus_label` as regenerated from the source: (A, Z, E, mass, real, user) -/
+def showLabelSrc : Except Err (List Ast.Val) → String
+  | .ok vs => if vs.length == 6 then "ok " ++ " ".intercalate (vs.map showValField) else "err other"
+  | .error .notAnElement => "err NotAnElement"
+  | .error (.validation f) => "err Validation:" ++ showFeature f
+  | .error .unparseable => "err Validation:unparseable"
+  | .error .other => "err other"
+
+def srcWorld (rng : Nat → Option Range) : Ast.World := { N := shippedN, rd := rd64, rng := rng, grp := none }
+
 abbrev Cache := Lru Input Output
 
 def stepC06 (rng : Nat → Option Range) (c : Cache) (line : String) : Cache × String :=
@@ -123,7 +145,13 @@ def stepC06 (rng : Nat → Option Range) (c : Cache) (line : String) : Cache × 
             | none => "none")
         | none => "bad-op")
   | 'R' :: ' ' :: t =>
-      (c, match parseInput? (String.ofList t) with | some i => showRes (f i) | none => "bad-op")
+      (c, match parseInput? (String.ofList t) with
+        | some i => showRes (f i) ++ " # " ++ showRes (Ast.reconcileSrc Gen.NucleusSrc.program shippedN rd64 rng i)
+        | none => "bad-op")
+  | 'F' :: ' ' :: t =>
+      (c, match unhex6 t with
+        | some b => showLabelSrc (Ast.parseSrc Gen.NucleusSrc.program (srcWorld rng) (.str b))
+        | none => "bad-op")
   | 'H' :: ' ' :: t =>
       match parseInput? (String.ofList t) with
       | some i => let r := Lru.call Input.pyEq f c i; (r.1, showRes r.2)
